@@ -17,7 +17,7 @@ def one(it):
     if not os.path.exists(patch):
         return '%s %d no patch' % (pid, n)
     feat = dict(os.environ)
-    if pid == 'C16':
+    if pid == 'C16' or 'serde' in open(demo).read():
         feat['SEED_FEATURES'] = 'serde'
     out = subprocess.run(['python3', '/verif/tools/seedrun.py', patch, demo, pid], capture_output=True, text=True, env=feat).stdout
     try:
